@@ -31,7 +31,7 @@ func c18Gen(seed uint64, run int, tier string) *Case {
 
 const canaryText = "CANARY-OUTSIDE-THE-EXPORTED-TREE-7f3a9"
 
-// evilName draws a name from the grammar of '..', '.', '', '/', absolute paths, chains and mixtures.
+// evilName draws a name from the grammar of '..', '.', ”, '/', absolute paths, chains and mixtures.
 func evilName(r *Rand, real []string, outer string) string {
 	pick := func() string {
 		if len(real) > 0 {
